@@ -11,7 +11,11 @@ Both front-ends (ndn.appv2.NDNApp, ndn.app.NDNApp) run on the virtual-time loop 
     subset of optional headers; handler calls, bytes on the face and completions of pending Interests must be
     the same, except that the reply of the wrapped run is spec_reply_wire(token, reply of the bare run).
  C. Nack: pending Interests complete with exactly the reason of the envelope (all width boundaries, reason-less
-    header = 0), nothing else completes, no handler runs.
+    header = 0), nothing else completes, no handler runs.  C' (run_nack_table): the same against a populated
+    table -- several Interests under the returned name (1..6, any order, interleaved with entries of the same
+    node that carry another implicit digest, with parents / children / other names, with entries whose caller
+    gives up in the loop turn of the Nack or gave up earlier): ONE envelope completes ALL the waiting Interests
+    it names, and only those.
  D. token echo: 1..5 Interests with distinct tokens (length 0..40, one possibly without), replies in every
     order; every reply is spec_reply_wire(token_i, data_i); the closure model (lp_run) agrees.
  E. codec functions: make_network_nack / parse_lp_packet / parse_network_nack / _put_raw_packet_with_pit_token
@@ -31,7 +35,15 @@ RULE = ('real Interests/Data (make_interest/make_data: plain, parameterised+dige
         'subsets for a few packets) of the 9 optional headers, unknown headers (critical and not) at any position, Nack '
         'headers with reasons at all integer-width boundaries / non-minimal widths / without reason, FragIndex/FragCount, '
         'misordered headers, idle and empty fragments, byte/length mutants and random bytes; tokens of length 0..40; '
-        '1-5 Interests with distinct tokens answered in every order. non-trivial = an envelope with >= 1 header or a '
+        '1-5 Interests with distinct tokens answered in every order.  Nack against a populated table: tables given by a '
+        'word over {named N waiting, named N and given up in the loop turn of the Nack, named N and given up earlier, '
+        'named N + implicit digest a / b, CanBePrefix parent of N, N/x, another name} in expression order -- 1..6 '
+        'Interests under one name, every word of length <= 2 (thorough: 3), sampled words of length 3-7 biased to '
+        'shared names -- and ONE Nack envelope returning the Interest of any entry (every distinct name): exactly the '
+        'waiting Interests with the returned name complete with InterestNack(reason of the envelope), all others '
+        'keep their fate (time out / Canceled), no handler runs, nothing is sent or raised; reasons cycle over the '
+        'width boundaries, reason-less and non-minimal widths, sampled header subsets.  '
+        'non-trivial = an envelope with >= 1 header or a '
         'history with >= 2 events; distinct by (front-end, typ, wire) / history hash')
 ASSUMPTIONS = ['the reception pipeline after the unwrap prologue (packet decoding, PIT, dispatch, validation) is an '
                'abstract function of (state, typ, token, bytes) in the theorems; it is exercised for real in streams B-D',
@@ -384,6 +396,7 @@ class Scenario:
         self.app, self.face = mk_app(ver)
         self.obs = []
         self.closures = []
+        self.tasks = []
         self.defer = defer
         self.enc = enc
         signer = DigestSha256Signer()
@@ -431,7 +444,7 @@ class Scenario:
                     coro = self.app.express(nm, appv2.pass_all, **kw)
                 else:
                     coro = self.app.express_interest(nm, **kw)
-                asyncio.ensure_future(waiter(i, coro))
+                self.tasks.append(asyncio.ensure_future(waiter(i, coro)))
         env.loop.run_until_complete(start())
         env.loop.settle()
         self.expressed = list(self.face.sent)
@@ -441,6 +454,25 @@ class Scenario:
         e = self.env.receive(self.app, typ, wire)
         if e is not None:
             self.obs.append(exc_obs(e))
+
+    def cancel(self, idxs):
+        """the callers of these pending Interests give up; the loop runs until their entries have left the table"""
+        for i in idxs:
+            self.tasks[i].cancel()
+        self.env.loop.settle()
+
+    def deliver_in_turn_of_cancel(self, idxs, typ, wire):
+        """the callers of [idxs] give up in the very loop turn in which the packet is processed: their waiters are
+        cancelled, their entries are still in the table"""
+        async def go():
+            for i in idxs:
+                self.tasks[i].cancel()
+            await self.app._receive(typ, memoryview(wire))
+        try:
+            self.env.loop.run_until_complete(go())
+        except Exception as e:   # noqa
+            self.obs.append(exc_obs(e))
+        self.env.loop.settle()
 
     def finish(self, wait=8.0):
         self.env.loop.advance_to(self.env.loop.time() + wait)
@@ -572,6 +604,112 @@ def run_nacks(ctx, ver, order, n, plan, origin):
         ctx.case((ver, tuple(wires)), True, case, f'C.v{ver}.{origin}')
     finally:
         env.close()
+
+
+# ---- C'. Nack against a populated pending-Interest table ---------------------------------------------
+# One letter per pending Interest, in the order in which they were expressed (= their order in the table):
+#   S  named N, waiting                      C  named N, its caller gives up in the loop turn of the Nack
+#   G  named N, given up earlier (gone)      A/B  named N + implicit digest a / b, waiting
+#   P  named by the parent of N with CanBePrefix, waiting     L  named N/x, waiting     O  another name
+TABLE_KINDS = 'SCGABPLO'
+
+
+def run_nack_table(ctx, ver, order, shape, target, nack, hdrs, unk, origin):
+    """[shape]: a word over TABLE_KINDS; one Nack envelope returns the Interest of entry [target].  The envelope
+    names the Interests whose (full) name is that of the returned Interest: exactly those that are still waiting
+    complete with InterestNack(reason of the envelope); every other entry keeps its own fate."""
+    rng = ctx.rng
+    env = Env()
+    try:
+        n_ = '/p/q/%d' % rng.randrange(3)
+        dig = {'A': 'aa' * 32, 'B': '5b' * 32}
+        full = {'S': n_, 'C': n_, 'G': n_, 'A': n_ + '/sha256digest=' + dig['A'], 'B': n_ + '/sha256digest=' + dig['B'],
+                'P': '/p/q', 'L': n_ + '/x', 'O': '/p/other'}
+        pend = []
+        for i, k in enumerate(shape):
+            pend.append((full[k], {'nonce': 500 + i, 'lifetime': 3000, 'must_be_fresh': rng.random() < 0.3,
+                                   'can_be_prefix': True if k == 'P' else rng.random() < 0.3}))
+        sc = Scenario(env, ver, pending=pend, handler_prefixes=('/h', '/p'))
+        sc.cancel([i for i, k in enumerate(shape) if k == 'G'])
+        interest = sc.expressed[target]
+        w, _ = envelope(rng, order, hdrs, interest, nack=nack, unknown=unk)
+        r = 0 if nack == 'noreason' else (nack[0] if isinstance(nack, tuple) else nack)
+        s = ctx.call([3, LP, w])
+        if s[0] != 2 or s[1] != r or bytes(s[2]) != interest:
+            ctx.disagree('spec_receive', 'harness expects a Nack envelope', {'wire': w}, s, r)
+        sc.deliver_in_turn_of_cancel([i for i, k in enumerate(shape) if k == 'C'], LP, w)
+        obs, sent = sc.finish()
+        expect = {}
+        for i, k in enumerate(shape):
+            if k in 'CG':
+                expect[i] = ('InterestCanceled',)
+            elif full[k] == full[shape[target]]:
+                expect[i] = ('nack', r)
+            else:
+                expect[i] = ('InterestTimeout',)
+        got, extra = {}, []
+        for o in obs:
+            if o[0] == 'done' and o[1] not in got:
+                got[o[1]] = tuple(o[2:])
+            else:
+                extra.append(o)
+        case = {'front_end': 'appv2' if ver == 2 else 'app', 'table': shape, 'returned_interest_of_entry': target,
+                'names': [nm for nm, _ in pend], 'envelope': w, 'origin': origin}
+        if got != expect or extra or sent:
+            named = [i for i in expect if expect[i][0] == 'nack']
+            if any(o[0] == 'handler' for o in extra):
+                cls = 'nack-dispatched-as-interest'
+            elif any(o[0] in ('raise', 'loop-error') for o in extra):
+                cls = 'nack-raises:' + [o[1] for o in extra if o[0] in ('raise', 'loop-error')][0]
+            elif any(got.get(i) != expect[i] for i in named):
+                cls = 'nack-wrong-reason' if all(got.get(i, ('',))[0] == 'nack' for i in named) else 'nack-not-completing-all-named'
+            else:
+                cls = 'nack-completes-unnamed'
+            ctx.violation(f'NDNApp.v{ver}', cls,
+                          f'table {shape!r}, Nack(reason {r}) returning the Interest of entry {target}: expected outcomes '
+                          f'{sorted(expect.items())!r} and nothing else; got {sorted(got.items())!r}, other observations '
+                          f'{extra!r}, sent {sent!r}', case)
+        ctx.case((ver, shape, target, w), True, case,
+                 f'C.v{ver}.table.{origin}.same{sum(1 for k in shape if k in "SC")}')
+    finally:
+        env.close()
+
+
+def nack_tables(ctx, order, all_subsets):
+    """the family: every table word up to a length (multiplicity sweep S..S separately), every distinct returned
+    name, reasons over the width boundaries, sampled header subsets"""
+    rng = ctx.rng
+    words = ['S' * k for k in range(1, 7)]
+    maxlen = 3 if ctx.thorough else 2
+    for n in range(1, maxlen + 1):
+        words += [''.join(t) for t in itertools.product(TABLE_KINDS, repeat=n)]
+    sampled = []
+    for _ in range(ctx.n(120, 1500)):
+        n = rng.randint(3, 7)
+        # tables in which several entries share the returned name are the point: bias towards S/C/A
+        sampled.append(''.join(rng.choice('SSSCCGAABPLO') for _ in range(n)))
+    ri = 0
+    for origin, ws in (('enum', words), ('sampled', sampled)):
+        for wd in ws:
+            cands = [i for i, k in enumerate(wd) if k in 'SCGAB']
+            if not cands:
+                continue
+            seen, targets = set(), []
+            for i in (cands if origin == 'enum' else rng.sample(cands, len(cands))):
+                key = 'N' if wd[i] in 'SCG' else wd[i]
+                if key not in seen:
+                    seen.add(key)
+                    # the returned Interest is any of those with that name
+                    targets.append(rng.choice([j for j in cands if ('N' if wd[j] in 'SCG' else wd[j]) == key]))
+            if origin == 'sampled':
+                targets = targets[:1]
+            for tg in targets:
+                for ver in (2, 1):
+                    r = REASONS[ri % len(REASONS)]
+                    ri += 1
+                    nack = 'noreason' if ri % 11 == 0 else (r, 8 if (r < 256 and ri % 5 == 0) else None)
+                    hs = () if ri % 3 else rng.choice(all_subsets)
+                    run_nack_table(ctx, ver, order, wd, tg, nack, hs, rng.choice([0, 0, 2]), origin)
 
 
 def run_tokens(ctx, order, tokens, perms, origin, hdr_extra=True, late=None, down=False):
@@ -895,6 +1033,10 @@ def run(ctx):
             if rng.random() < 0.3:
                 plan.append(plan[0][:1] + (77, (), 0))     # a second Nack for an Interest already completed
             run_nacks(ctx, ver, order, n, plan, 'headers')
+    import time
+    t0 = time.time()
+    nack_tables(ctx, order, all_subsets)
+    ctx.extra['wall_nack_tables_s'] = round(time.time() - t0, 1)
 
     # ---------------- D: token echo
     def toks(k):
@@ -931,5 +1073,11 @@ def replay(ctx, data):
                 check_codecs(ctx, case['wire'])
         finally:
             env.close()
+    elif isinstance(case, dict) and 'table' in case:
+        # a table scenario: same table word and returned entry, the reason the stored envelope carries
+        sp = ctx.call([3, LP, case['envelope']])
+        r = sp[1] if sp[0] == 2 else 0
+        run_nack_table(ctx, 2 if case.get('front_end') == 'appv2' else 1, ORDER, case['table'],
+                       case['returned_interest_of_entry'], r, (), 0, 'replay')
     else:
         run(ctx)
